@@ -679,7 +679,7 @@ impl Session {
 
     // every shrunk failure is re-executed from its serialised form before
     // it is reported
-    for (i, (case, _)) in failures.into_iter().enumerate() {
+    for (i, (case, original)) in failures.into_iter().enumerate() {
       let value = serde_json::to_value(&case).expect("case serialises");
       let case2: C = serde_json::from_value(value.clone()).expect("case deserialises");
       let cx = Cx {
@@ -723,8 +723,12 @@ impl Session {
         }
         _ => {
           self.inconclusive.push(format!(
-            "part {}: a failure found during the search did not reproduce from its serialised case: {case:?}",
-            part.name
+            "part {}: a failure found during the search ({}) did not reproduce from its serialised case: {case:?}",
+            part.name,
+            original
+              .as_ref()
+              .map(|f| format!("[{}] {}", f.sig, f.msg))
+              .unwrap_or_else(|| "unrecorded".into())
           ));
         }
       }
